@@ -316,4 +316,7 @@ var plainHeaders = []string{
 	// positions of everything below are attributed to another file name and line
 	"//line sample.y:1\n",
 	"//line /gen/src/other.go:100\n\n",
+	// prose in which a line happens to start with the word "package"
+	"/*\nThis file is part of\npackage sample of the example tree, see the\npackage documentation in doc.go.\n*/\n\n",
+	"/*\npackage sample holds examples.\n*/\n",
 }
